@@ -46,6 +46,8 @@ pub enum MFault {
     WrongVk,
     PiExtra,
     PiMissing,
+    /// bytes appended to the proof (only delivered to entries that receive proof bytes)
+    ProofTrailing { n: usize, byte: u8 },
 }
 
 #[derive(Clone, Debug, Serialize, Deserialize, PartialEq)]
@@ -113,6 +115,7 @@ fn build_member(m: &Member) -> Built {
         MFault::PiMissing => {
             b.pi.pop();
         }
+        MFault::ProofTrailing { n, byte } => b.proof.extend(std::iter::repeat(*byte).take(*n)),
     }
     b
 }
@@ -146,6 +149,7 @@ fn fault_kind(f: &MFault) -> &'static str {
         MFault::WrongVk => "member-wrong-vk",
         MFault::PiExtra => "member-extra-public-input",
         MFault::PiMissing => "member-missing-public-input",
+        MFault::ProofTrailing { .. } => "member-proof-trailing-bytes",
     }
 }
 
@@ -156,7 +160,7 @@ impl Check for C15 {
     fn meta(&self) -> Meta {
         Meta {
             level: "exploration",
-            rule: "one run = one batch of 0..6 deliveries over two standard-library relations (Poseidon, arithmetic; different k), each delivery an honest proof from a pool or one faulted by a proof bit flip, a wrong public input, a wrong key, an extra or a missing public input, in a drawn order with repetitions, delivered to one of: zk_stdlib::batch_verify, Guard::batch_verify, DualMSM scale/add_msm/check with drawn scalars, off-circuit Accumulator from_dual_msm/accumulate/collapse/check with the union of both keys' fixed-base maps; also empty and length-mismatched batches. Oracle: the batch verdict equals the conjunction of the single verifier's verdicts on the members; empty / mismatched batches return a value. distinct_nontrivial counts distinct (entry, member list) digests containing at least one fault or a repetition",
+            rule: "one run = one batch of 0..6 deliveries over two standard-library relations (Poseidon, arithmetic; different k), each delivery an honest proof from a pool or one faulted by a proof bit flip, a wrong public input, a wrong key, an extra or a missing public input, bytes appended to the proof (batch_verify only), in a drawn order with repetitions, delivered to one of: zk_stdlib::batch_verify, Guard::batch_verify, DualMSM scale/add_msm/check with drawn scalars, off-circuit Accumulator from_dual_msm/accumulate/collapse/check with the union of both keys' fixed-base maps; also empty and length-mismatched batches. Oracle: the batch verdict equals the conjunction of the single verifier's verdicts on the members; empty / mismatched batches return a value. distinct_nontrivial counts distinct (entry, member list) digests containing at least one fault or a repetition",
             assumptions: vec![
                 "a random linear combination hiding an invalid member has probability <= 2^-120 and is ignored",
                 "Accumulator::accumulate is exercised on >= 1 accumulators (its empty case is not part of the batch-verification contract)",
@@ -196,7 +200,8 @@ impl Check for C15 {
         let mut members: Vec<Member> = (0..n)
             .map(|i| {
                 let fault = if !all_valid && (i == bad || rng.chance(1, 6)) {
-                    match rng.below(6) {
+                    match rng.below(7) {
+                        6 => MFault::ProofTrailing { n: *rng.pick(&[1usize, 32, 48]), byte: *rng.pick(&[0u8, 0xff]) },
                         0 | 1 => MFault::WrongPi { pos: rng.usize(4), add: Fe(Fq::from(1 + rng.below(9))) },
                         2 => MFault::ProofBit { bit: rng.usize(1 << 16) },
                         3 => MFault::WrongVk,
@@ -217,6 +222,14 @@ impl Check for C15 {
         }
         rng.shuffle(&mut members);
         let entry = *rng.pick(&[Entry::Stdlib, Entry::Stdlib, Entry::Guards, Entry::DualMsm, Entry::Accumulator]);
+        if entry != Entry::Stdlib {
+            // the other entries receive prepared guards, not proof bytes
+            for m in members.iter_mut() {
+                if matches!(m.fault, MFault::ProofTrailing { .. }) {
+                    m.fault = MFault::None;
+                }
+            }
+        }
         let scn = Scn {
             members,
             entry,
